@@ -372,7 +372,17 @@ def groups_of(ops):
     return header, groups, trailer
 
 
-def still_fails(ops, proj, predicate=None):
+def divergence_signature(ops, impl, model, proj):
+    """(operation name, implementation result class, model result class) of the first divergent line, or None."""
+    for i, o in enumerate(ops):
+        im = impl[i] if i < len(impl) else "<none>"
+        mo = model[i] if i < len(model) else "<none>"
+        if proj(o, im) != proj(o, mo):
+            return (o.split(" ")[0], im.split(" ")[0], mo.split(" ")[0])
+    return None
+
+
+def still_fails(ops, proj, predicate=None, want=None):
     impl, _ = run_impl_replay(ops, "shrink")
     path = os.path.join(WORK, "shrink_%d.ops" % os.getpid())
     model = run_model(path)
@@ -380,16 +390,17 @@ def still_fails(ops, proj, predicate=None):
         return False        # the candidate is not a well-formed program any more (e.g. a drain of a feed whose start was removed)
     if predicate is not None:
         return predicate(ops, impl, model)
-    for i, o in enumerate(ops):
-        im = impl[i] if i < len(impl) else "<none>"
-        mo = model[i] if i < len(model) else "<none>"
-        if proj(o, im) != proj(o, mo):
-            return True
-    return False
+    sig = divergence_signature(ops, impl, model, proj)
+    # removing lines may not turn the divergence into a different one (another operation, another kind of result)
+    return sig is not None and (want is None or sig == want)
 
 
 def shrink(ops, proj, predicate=None, budget=120):
     header, groups, trailer = groups_of(ops)
+    want = None
+    if predicate is None:
+        impl0, opath0 = run_impl_replay(ops, "shrink0")
+        want = divergence_signature(ops, impl0, run_model(opath0), proj)
     # keep only up to the first divergent line's group: everything after is irrelevant
     runs = 0
     i = len(groups) - 1
@@ -398,7 +409,7 @@ def shrink(ops, proj, predicate=None, budget=120):
         flat = header + [l for g in cand for l in g] + trailer
         runs += 1
         try:
-            if still_fails(flat, proj, predicate):
+            if still_fails(flat, proj, predicate, want):
                 groups = cand
         except MachineryError:
             pass
